@@ -25,7 +25,7 @@ func init() {
 			// evaluate as "effect" = the store of maxTimestamp
 			var cond ast.Expr
 			var store *ast.AssignStmt
-			ast.Inspect(f.Decl.Body, func(nd ast.Node) bool {
+			inspect(f.Decl.Body, func(nd ast.Node) bool {
 				if is, ok := nd.(*ast.IfStmt); ok {
 					for _, st := range is.Body.List {
 						if as, ok := st.(*ast.AssignStmt); ok && len(as.Lhs) == 1 && prog.SelField(info, as.Lhs[0]) == maxF {
@@ -38,7 +38,7 @@ func init() {
 			if store == nil {
 				// maybe max(...) form
 				ok := false
-				ast.Inspect(f.Decl.Body, func(nd ast.Node) bool {
+				inspect(f.Decl.Body, func(nd ast.Node) bool {
 					if as, isAs := nd.(*ast.AssignStmt); isAs && len(as.Lhs) == 1 && prog.SelField(info, as.Lhs[0]) == maxF {
 						store = as
 					}
@@ -78,7 +78,7 @@ func init() {
 			lateF := r.P.Field("workers/wmark", "Watermarker", "allowedLateness")
 			r.Site(f.Decl.Pos(), "CurrentWatermark expression")
 			var ret *ast.ReturnStmt
-			ast.Inspect(f.Decl.Body, func(nd ast.Node) bool {
+			inspect(f.Decl.Body, func(nd ast.Node) bool {
 				if rs, ok := nd.(*ast.ReturnStmt); ok {
 					ret = rs
 				}
@@ -126,10 +126,17 @@ func init() {
 			route := r.P.FuncObj("workers/sourcerunner", "(*operatorCluster).routeEvent")
 			info := so.Pkg.TypesInfo
 			// per element of the async result: AdvanceTime(event.Timestamp) precedes routeEvent
-			var loop *ast.RangeStmt
-			ast.Inspect(so.Decl.Body, func(nd ast.Node) bool {
-				if rs, ok := nd.(*ast.RangeStmt); ok && r.exprCalls(info, rs.Body, route) {
-					loop = rs
+			var loop ast.Stmt // range or counted loop whose body routes the events
+			inspect(so.Decl.Body, func(nd ast.Node) bool {
+				switch x := nd.(type) {
+				case *ast.RangeStmt:
+					if r.exprCalls(info, x.Body, route) {
+						loop = x
+					}
+				case *ast.ForStmt:
+					if r.exprCalls(info, x.Body, route) {
+						loop = x
+					}
 				}
 				return true
 			})
@@ -137,30 +144,52 @@ func init() {
 				r.Fail(so.Name()+":no-route-loop", so.Decl.Pos(), nil, "sendOperatorEvent no longer routes keyed events")
 				return
 			}
-			elem := prog.IdentObj(info, loop.Value)
+			// "the event being forwarded": the variable whose Key is the routing key
+			baseOf := func(c *pathsim.Ctx, e ast.Expr, field string) types.Object {
+				var obj types.Object
+				inspect(e, func(m ast.Node) bool {
+					if sel, ok := m.(*ast.SelectorExpr); ok && sel.Sel.Name == field && obj == nil {
+						obj = prog.IdentObj(c.Info, sel.X)
+					}
+					return true
+				})
+				return obj
+			}
+			var advanced, routedObj types.Object
 			spec := &pathsim.Spec{Step: func(c *pathsim.Ctx, s pathsim.State, ev *pathsim.Event) []pathsim.State {
-				if ev.Kind == pathsim.EvRangeIter && ev.Node == ast.Node(loop) {
-					s.A = 0
+				if ((ev.Kind == pathsim.EvRangeIter || ev.Kind == pathsim.EvLoopIter) && ev.Node == ast.Node(loop)) || (ev.Kind == pathsim.EvLoopExit && ev.Node == ast.Node(loop)) {
+					if s.B == 1 && s.A == 0 {
+						c.Violate(ev.Pos, "[route-without-advance] a keyed event is routed in an iteration that does not feed its timestamp to the watermark source: the watermark source never accounts for it, so a watermark at or beyond that timestamp can be emitted although the event was forwarded after it")
+					}
+					if s.B == 1 && s.A == 1 && routedObj != nil && advanced != nil && routedObj != advanced {
+						c.Violate(ev.Pos, "[advance-arg] AdvanceTime is not given the timestamp of the event being forwarded")
+					}
+					s.A, s.B = 0, 0
 					return []pathsim.State{s}
 				}
 				if callTo(adv)(c, ev) {
-					good := false
+					advanced = nil
 					if len(ev.Call.Args) == 1 {
-						ast.Inspect(ev.Call.Args[0], func(m ast.Node) bool {
-							if sel, ok := m.(*ast.SelectorExpr); ok && sel.Sel.Name == "Timestamp" && prog.IdentObj(c.Info, sel.X) == elem {
-								good = true
-							}
-							return true
-						})
+						advanced = baseOf(c, ev.Call.Args[0], "Timestamp")
 					}
-					if !good {
+					if advanced == nil {
 						c.Violate(ev.Pos, "[advance-arg] AdvanceTime is not given the timestamp of the event being forwarded")
 					}
 					s.A = 1
 					return []pathsim.State{s}
 				}
-				if callTo(route)(c, ev) && s.A == 0 {
-					c.Violate(ev.Pos, "[route-before-advance] a keyed event is routed before its timestamp advanced the watermark source: a watermark stamped in between could reach or pass a timestamp already forwarded")
+				if callTo(route)(c, ev) {
+					// B: an event was routed in this iteration; A: its timestamp was fed to the watermark source.
+					// Both happen on the single consumer goroutine between two items of outputStream, so their
+					// relative order inside the iteration is immaterial; what matters is that no routed event
+					// leaves the iteration without having advanced the watermark source.
+					s.B = 1
+					if len(ev.Call.Args) >= 1 {
+						if routed := baseOf(c, ev.Call.Args[0], "Key"); routed != nil {
+							routedObj = routed
+						}
+					}
+					return []pathsim.State{s}
 				}
 				return nil
 			}}
@@ -187,11 +216,12 @@ func init() {
 					_, ok = ast.Unparen(u.X).(*ast.CompositeLit)
 					return ok
 				}
-				if isFreshLit(send.Value) {
-					if mentionsType(pinfo, send.Value, wmWrap) {
+				sent := freshValue(pinfo, send.Value, send.Pos())
+				if isFreshLit(sent) {
+					if mentionsType(pinfo, sent, wmWrap) {
 						// nested Watermark must be fresh too
 						freshInner := false
-						ast.Inspect(send.Value, func(m ast.Node) bool {
+						inspect(sent, func(m ast.Node) bool {
 							if kv, ok := m.(*ast.KeyValueExpr); ok {
 								if id, ok := kv.Key.(*ast.Ident); ok && id.Name == "Watermark" && isFreshLit(kv.Value) && mentionsType(pinfo, kv.Value, wmMsg) {
 									freshInner = true
@@ -220,7 +250,7 @@ func init() {
 			// watermark case: Timestamp = CurrentWatermark(), then broadcast that message
 			wmT := r.P.TypeName("proto/workerpb", "Event_Watermark")
 			bc := r.P.FuncObj("workers/sourcerunner", "(*operatorCluster).broadcastEvent")
-			ast.Inspect(so.Decl.Body, func(nd ast.Node) bool {
+			inspect(so.Decl.Body, func(nd ast.Node) bool {
 				cc, ok := nd.(*ast.CaseClause)
 				if !ok {
 					return true
@@ -237,7 +267,7 @@ func init() {
 				r.Site(cc.Pos(), "watermark case stamps CurrentWatermark and broadcasts it")
 				stamped, sent := false, false
 				for _, st := range cc.Body {
-					ast.Inspect(st, func(m ast.Node) bool {
+					inspect(st, func(m ast.Node) bool {
 						if as, ok := m.(*ast.AssignStmt); ok && len(as.Lhs) == 1 {
 							if sel, ok := ast.Unparen(as.Lhs[0]).(*ast.SelectorExpr); ok && sel.Sel.Name == "Timestamp" && r.exprCalls(info, as.Rhs[0], cur) {
 								stamped = true
@@ -269,7 +299,7 @@ func init() {
 			minFunc := r.P.FuncObj("util/iteru", "MinFunc")
 			var storePos, minPos, cachePos = ast.Node(nil), ast.Node(nil), ast.Node(nil)
 			var comp types.Object
-			ast.Inspect(f.Decl.Body, func(nd ast.Node) bool {
+			inspect(f.Decl.Body, func(nd ast.Node) bool {
 				if _, isLit := nd.(*ast.FuncLit); isLit {
 					return false
 				}
@@ -284,7 +314,7 @@ func init() {
 					}
 					// value derives from the message's Timestamp
 					uses := false
-					ast.Inspect(as.Rhs[0], func(m ast.Node) bool {
+					inspect(as.Rhs[0], func(m ast.Node) bool {
 						if sel, ok := m.(*ast.SelectorExpr); ok && (sel.Sel.Name == "Timestamp" || sel.Sel.Name == "GetTimestamp") {
 							uses = true
 						}
@@ -327,12 +357,12 @@ func init() {
 			nr := r.P.Func("workers/operator", "NewTimerRegistry")
 			ni := nr.Pkg.TypesInfo
 			okInit := false
-			ast.Inspect(nr.Decl.Body, func(nd ast.Node) bool {
+			inspect(nr.Decl.Body, func(nd ast.Node) bool {
 				rs, ok := nd.(*ast.RangeStmt)
 				if !ok || !r.isParam(nr, rs.X, 1) {
 					return true
 				}
-				ast.Inspect(rs.Body, func(m ast.Node) bool {
+				inspect(rs.Body, func(m ast.Node) bool {
 					if as, ok := m.(*ast.AssignStmt); ok && len(as.Lhs) == 1 && len(as.Rhs) == 1 {
 						if ix, ok := ast.Unparen(as.Lhs[0]).(*ast.IndexExpr); ok && prog.IdentObj(ni, ix.Index) == prog.IdentObj(ni, rs.Value) {
 							if call, ok := isCallToNamed(ni, as.Rhs[0], "time", "Unix"); ok && len(call.Args) == 2 {
@@ -356,10 +386,10 @@ func init() {
 			mf := r.P.Func("util/iteru", "MinFunc")
 			mi := mf.Pkg.TypesInfo
 			var guard *ast.IfStmt
-			ast.Inspect(mf.Decl.Body, func(nd ast.Node) bool {
+			inspect(mf.Decl.Body, func(nd ast.Node) bool {
 				if is, ok := nd.(*ast.IfStmt); ok && guard == nil {
 					if _, inLoop := nd.(*ast.IfStmt); inLoop {
-						ast.Inspect(is.Cond, func(m ast.Node) bool {
+						inspect(is.Cond, func(m ast.Node) bool {
 							if call, ok := m.(*ast.CallExpr); ok && r.isParam(mf, call.Fun, 1) {
 								guard = is
 							}
@@ -375,7 +405,7 @@ func init() {
 			}
 			// cmp(cur, *min) < 0  with symbols: treat cmp(a,b) as three-way compare of a and b
 			var callCmp *ast.CallExpr
-			ast.Inspect(guard.Cond, func(m ast.Node) bool {
+			inspect(guard.Cond, func(m ast.Node) bool {
 				if call, ok := m.(*ast.CallExpr); ok && r.isParam(mf, call.Fun, 1) {
 					callCmp = call
 				}
@@ -389,7 +419,7 @@ func init() {
 				"no minimum yet || cmp(cur, min) < 0")
 			// argument order: cmp(cur, *min) where cur is the range variable
 			var loop *ast.RangeStmt
-			ast.Inspect(mf.Decl.Body, func(nd ast.Node) bool {
+			inspect(mf.Decl.Body, func(nd ast.Node) bool {
 				if rs, ok := nd.(*ast.RangeStmt); ok && loop == nil {
 					loop = rs
 				}
@@ -414,7 +444,7 @@ func init() {
 			wm := r.P.Field("workers/operator", "TimerRegistry", "watermark")
 			reg := r.P.Field("workers/operator", "Operator", "timerRegistry")
 			ok := false
-			ast.Inspect(f.Decl.Body, func(nd ast.Node) bool {
+			inspect(f.Decl.Body, func(nd ast.Node) bool {
 				kv, isKV := nd.(*ast.KeyValueExpr)
 				if !isKV {
 					return true
@@ -423,7 +453,7 @@ func init() {
 					return true
 				}
 				r.Site(kv.Pos(), "ProcessEventBatchRequest.Watermark")
-				ast.Inspect(kv.Value, func(m ast.Node) bool {
+				inspect(kv.Value, func(m ast.Node) bool {
 					if sel, isSel := m.(*ast.SelectorExpr); isSel && prog.SelField(info, sel) == wm && prog.SelField(info, sel.X) == reg {
 						ok = true
 					}
